@@ -20,7 +20,10 @@ PROPERTY = 'C09'
 LEVEL = 'exploration'
 
 TEXTS = ['c', 'two words', 'x\ny', 'x\n\ny', '\n', '  lead', '#', "it's", '"q"', ')]}', 'a,b', 'w' * 100,
-         '\xe9', 'trail  ', 'a\n', '\nb', ' ', 'tab\there', 'w ' * 40, '\\', "'''", 'x = [1,\n2]']
+         '\xe9', 'trail  ', 'a\n', '\nb', ' ', 'tab\there', 'w ' * 40, '\\', "'''", 'x = [1,\n2]',
+         # every character str.splitlines() treats as a line boundary, between two words and at the ends
+         'alpha\rbeta', 'alpha\r\nbeta', 'alpha\x0bbeta', 'alpha\x0cbeta', 'alpha\x1cbeta', 'alpha\x1dbeta', 'alpha\x1ebeta',
+         'alpha\x85beta', 'alpha\u2028beta', 'alpha\u2029beta', '\rlead', 'trail\r', 'a \r b']
 TRAILING_OK = (list, tuple, set, dict)
 SETTINGS = [{'sort_dict_keys': True}, {'max_seq_len': 2}, {'max_seq_len': 1, 'sort_dict_keys': True}, {'depth': 2}, {'depth': 3, 'indent': 2}]
 
@@ -47,6 +50,8 @@ def specs():
     yield 'dict-unsorted', lambda w: w(0, {'z': w(1, {'b': 1, 'a': w(2, 2)}), 'y': w(3, [w(4, {'d': 1, 'c': 2})])})
     yield 'long-containers', lambda w: w(0, {'k': w(1, [1, 2, 3, 4, 5]), 'j': w(2, (1, 2, 3)), 'i': w(3, {1: 1, 2: 2, 3: 3})})
     yield 'deep', lambda w: w(0, {'k': w(1, [w(2, [w(3, [w(4, 1)])])])})
+    yield 'long-list', lambda w: w(0, [w(1, 0)] + list(range(1, 58)) + [w(2, 58), w(3, [w(4, 59)])])
+    yield 'long-tuple-in-dict', lambda w: w(0, {'k': w(1, tuple([w(2, 'first')] + list(range(55)) + [w(3, 'last')]))})
     yield 'emptylist', lambda w: w(0, [])
     yield 'emptytuple', lambda w: w(0, ())
     yield 'emptydict', lambda w: w(0, {})
